@@ -2,7 +2,7 @@
 use super::common::*;
 use crate::engine::*;
 use crate::gen::*;
-use crate::sim::scenario::Scenario;
+use crate::sim::scenario::{Op, Scenario};
 
 pub const PROPS: &[&str] = &["C03"];
 
@@ -28,6 +28,16 @@ pub fn eval_drops(sc: &Scenario) -> CaseResult {
         r.violation = super::posthoc::spectator_replay(sc, &out).map(|(s, m)| (format!("C03.spectator|{s}"), m));
     }
     r.nontrivial = out.peers.iter().any(|p| p.alive && p.cs.iter().any(|c| c.0));
+    r
+}
+
+pub fn eval_stale(sc: &Scenario) -> CaseResult {
+    let (out, mut r) = eval_core(sc, PROPS, false);
+    let confirmed: i32 = out.peers.iter().map(|p| p.last_conf.max(0)).min().unwrap_or(0);
+    r.nontrivial = out.forged_before_running > 0 && confirmed >= 50;
+    if out.forged_before_running > 0 {
+        r.classes.push("foreign_input_packet_during_handshake");
+    }
     r
 }
 
@@ -67,6 +77,38 @@ pub fn run(ctx: &Ctx) -> PropReport {
             }
             r
         }));
+    // packets of ANOTHER session (a previous incarnation of the peer on the same address, an unknown address) while the
+    // handshake is still going on and afterwards: whatever they carry was never sent by this session's player, so
+    // nothing of it may be handed out as Confirmed (added after seeded change C03-r8 was missed: the magic filter
+    // exempted every message kind, not only handshake messages, while an endpoint was still synchronizing)
+    let tier = ctx.tier;
+    rep.part(|| run_random(ctx, "stale_session",
+        "C08's lossy scenarios (2-3 peers, spectators, slow handshakes) reduced to FOREIGN packets (another session's magic on copies of real input packets with shifted frames, a stale session's valid first input packet of three frames, its other messages and handshake packets, real packets from an unknown address), at least four of them during the handshake and the first ticks after it; C03's clauses unchanged: Confirmed => really received from this session's peer (accessor and ledger) and the true value; non-trivial = >=1 foreign input packet delivered while its receiver was not yet Running AND >= 50 confirmed frames",
+        move || {
+            use proptest::prelude::*;
+            (super::c08::gen(tier, true), proptest::collection::vec((any::<u16>(), 1u32..70, 0u8..3, 1i32..6), 4..10)).prop_map(|(mut sc, extra)| {
+                let own = |k: u8| k <= 3 || k == 12 || k == 13 || k == 8 || k == 9;
+                sc.ops.retain(|o| match o {
+                    Op::Forge { kind, .. } => !own(*kind),
+                    Op::Kill { .. } => false,
+                    _ => true,
+                });
+                let links = all_links(&sc);
+                for (l, tick, which, a) in extra {
+                    let (from, to) = links[idx(l, links.len())];
+                    if to >= 100 && from >= 100 {
+                        continue;
+                    }
+                    let kind = [6u8, 6, 5][which as usize];
+                    let bytes = if kind == 6 { super::c08::stale_first_packet(&sc, from, to) } else { vec![] };
+                    sc.ops.push(Op::Forge { tick, to, from, kind, a, b: if kind == 5 { a - 3 } else { 0 }, bytes });
+                }
+                sc.ops.sort_by_key(|o| o.tick());
+                sc
+            }).boxed()
+        },
+        ctx.tier.pick(3000, 12000),
+        eval_stale));
     rep.floors.push(("p2p".into(), 0.3));
     rep.assumptions = vec!["connection status (disconnected flag, last received frame) is read through the verif-hooks accessor right after each call; cross-checked against the network ledger".into()];
     rep
